@@ -24,6 +24,7 @@ type Prog struct {
 	funcs     map[string]*ssa.Function // key -> function
 	loopCache map[*ssa.Function]*LoopSet
 	globalZero map[*ssa.Global]bool
+	ordCache  map[*ssa.Function]map[ssa.Instruction]int
 	allFuncs  []*ssa.Function
 }
 
@@ -139,6 +140,9 @@ func NewExec(p *Prog, fn *ssa.Function, c *Contract) *Exec {
 }
 
 func fnKey(fn *ssa.Function) string {
+	if fn == nil {
+		return "?"
+	}
 	if fn.Pkg == nil {
 		// external or synthetic
 		return fn.String()
@@ -258,17 +262,40 @@ func (e *Exec) ordinalName(instr ssa.Instruction, kind string) string {
 		return n
 	}
 	fnk := "?"
-	if instr.Parent() != nil {
-		fnk = fnKey(instr.Parent())
+	ord := 0
+	tag := strings.TrimPrefix(fmt.Sprintf("%T", instr), "*ssa.")
+	if fn := instr.Parent(); fn != nil {
+		fnk = fnKey(fn)
+		ord = e.prog.staticOrdinal(fn, instr)
 	}
-	k := fnk + "/" + kind
-	e.ordinals[k]++
-	n := fmt.Sprintf("safe:%s#%d", kind, e.ordinals[k])
+	n := fmt.Sprintf("safe:%s#%s%d", kind, tag, ord)
+	if kind == "return" {
+		n = fmt.Sprintf("safe:return#%d", ord)
+	}
 	if fnk != e.unit {
-		n = fmt.Sprintf("safe:%s@%s#%d", kind, fnk, e.ordinals[k])
+		n = fmt.Sprintf("safe:%s@%s#%s%d", kind, fnk, tag, ord)
 	}
 	e.instrOrd[ik] = n
 	return n
+}
+
+// staticOrdinal numbers an instruction among the instructions of the same Go
+// type of its function, in block order (independent of exploration order).
+func (p *Prog) staticOrdinal(fn *ssa.Function, instr ssa.Instruction) int {
+	m, ok := p.ordCache[fn]
+	if !ok {
+		m = map[ssa.Instruction]int{}
+		counts := map[string]int{}
+		for _, b := range fn.Blocks {
+			for _, in := range b.Instrs {
+				t := fmt.Sprintf("%T", in)
+				counts[t]++
+				m[in] = counts[t]
+			}
+		}
+		p.ordCache[fn] = m
+	}
+	return m[instr]
 }
 
 func (e *Exec) where(instr ssa.Instruction) string {
